@@ -18,8 +18,8 @@ ID = "C07"
 CASES = {"quick": 5000, "thorough": 50000}
 FLOOR = {"quick": 3500, "thorough": 35000}
 FLOOR_COUNTERS = {
-    "quick": {"configured_not_by_constructor": 2000, "non_default_containers": 2000, "integer_typed_inputs": 300, "picks_judged": 12000, "stale_score_picks": 3000, "residual_checks": 3000, "relation_fits": 2000, "estimators_with_a_past": 1000, "small_unit_cases": 300},
-    "thorough": {"configured_not_by_constructor": 20000, "non_default_containers": 20000, "integer_typed_inputs": 3000, "picks_judged": 90000, "stale_score_picks": 10000, "residual_checks": 15000, "relation_fits": 10000, "estimators_with_a_past": 10000, "small_unit_cases": 3000},
+    "quick": {"staged_fits_with_a_refused_warm_start": 300, "numpy_scalar_parameters": 800, "configured_not_by_constructor": 2000, "non_default_containers": 2000, "integer_typed_inputs": 300, "picks_judged": 12000, "stale_score_picks": 3000, "residual_checks": 3000, "relation_fits": 2000, "estimators_with_a_past": 1000, "small_unit_cases": 300},
+    "thorough": {"staged_fits_with_a_refused_warm_start": 3500, "numpy_scalar_parameters": 9000, "configured_not_by_constructor": 20000, "non_default_containers": 20000, "integer_typed_inputs": 3000, "picks_judged": 90000, "stale_score_picks": 10000, "residual_checks": 15000, "relation_fits": 10000, "estimators_with_a_past": 10000, "small_unit_cases": 3000},
 }
 RULE = (
     "case = (CUR | PCov-CUR) x (feature | sample), matrix family with rank above the request, k in {1,2,3}, mixing in "
@@ -103,10 +103,10 @@ def gen(rng, tier, index):
     spec["yform"] = gens.pick(rng, forms.PRESENT)
     spec["clobber"] = bool(rng.random() < 0.5)
     spec["npscalars"] = bool(rng.random() < 0.3)
-    return {"spec": spec, "X": X, "y": y, "kind": kind, "unit": unit, "past": past}
+    return {"spec": spec, "X": X, "y": y, "kind": kind, "unit": unit, "past": past, "warm_split": int(rng.integers(1, 50)) if rng.random() < 0.35 else 0}
 
 
-def _fit(spec, X, y, j, label="", past=None):
+def _fit(spec, X, y, j, label="", past=None, warm_split=0):
     est = sel.make(spec)
     if past is not None:
         n_real = est.n_to_select
@@ -115,6 +115,20 @@ def _fit(spec, X, y, j, label="", past=None):
         est.n_to_select = n_real
         j.note("estimators_with_a_past")
     tr = rt.GreedyTrace(est)
+    n_final = est.n_to_select
+    re_ = int(spec["kw"].get("recompute_every", 1))
+    if warm_split and re_ in (0, 1) and isinstance(n_final, (int, np.integer)) and n_final >= 3:
+        # two stages with a failure in between: fit(n1), a warm start asking for FEWER selections (refused), then the
+        # corrected warm start to n (refresh intervals above 1 re-score at a restart and are not staged)
+        n1 = 2 + int(warm_split) % (int(n_final) - 2)
+        est.n_to_select = n1
+        j.lib("fit:stage1" + label, sel.fit, est, X, y, spec)
+        est.n_to_select = n1 - 1
+        forms.rejected(j, "shrinking warm start", sel.fit, est, X, y, spec, warm=True)
+        est.n_to_select = n_final
+        j.lib("fit:warm" + label, sel.fit, est, X, y, spec, warm=True)
+        j.note("staged_fits_with_a_refused_warm_start")
+        return est, tr
     j.lib("fit" + label, sel.fit, est, X, y, spec)
     return est, tr
 
@@ -222,7 +236,7 @@ def run(case, j):
     j.tag(f"{spec['dir']}:{spec['cls']}", f"data:{case['kind']}", f"re:{kw['recompute_every']}", f"k:{kw['k']}", f"mixing:{kw.get('mixing')}")
     if case.get("unit", 1.0) < 1e-4:
         j.note("small_unit_cases")
-    est, tr = _fit(spec, X, y, j, past=case.get("past"))
+    est, tr = _fit(spec, X, y, j, past=case.get("past"), warm_split=case.get("warm_split", 0))
     if not _tolerance_clear(spec, X, [e["idx"] for e in tr.commits()]):
         raise Skip("residual-norm-or-selected-spectrum-within-100x-of-the-tolerance")
     seq, njudged, pis = _judge_fit(spec, X, y, est, tr, j)
